@@ -445,6 +445,60 @@ func absSections(sb *strings.Builder, fb []byte, off int) {
 	}
 }
 
+// FFS3Rule: a file in the large form (attribute bit 0, 64-bit size, 32-byte header) exists only in
+// the FFSv3 file system: a volume that carries the FFSv2 GUID must not hold one. Every volume of
+// the image is looked at (top-level, in FV-image sections, inside opened compressed sections).
+// "" when the rule holds. This rule is not part of ValidImage / Model/Valid.v's valid_image (the
+// two renderings of the reader are compared with each other); the oracles apply it next to them.
+func FFS3Rule(b []byte) string {
+	why := ""
+	var vol func(v []byte, where string)
+	var secs func(fb []byte, off int, where string)
+	secs = func(fb []byte, off int, where string) {
+		for off < len(fb) && why == "" {
+			shl, size, ok := secAt(fb, off)
+			if !ok {
+				return
+			}
+			if plain, opened, w := compressedAt(fb, off, shl, size); opened && w == "" {
+				secs(plain, 0, where+" compressed")
+			} else if fb[off+3] == 0x17 {
+				vol(fb[off+shl:off+size], where+" nested")
+			}
+			off = up(off+size, 4)
+		}
+	}
+	vol = func(v []byte, where string) {
+		vi, w := volHeader(v)
+		if w != "" || !vi.ffs {
+			return
+		}
+		v = v[:vi.length]
+		var g [16]byte
+		copy(g[:], v[16:32])
+		off := vi.dataOff
+		for why == "" {
+			hl, size, free := fileAt(v, off, vi.pol)
+			if free || size < hl || off+size > len(v) {
+				return
+			}
+			fb := v[off : off+size]
+			if fb[19]&1 != 0 && g == ffs2 {
+				why = fmt.Sprintf("%s file@%x: large-file-in-a-volume-with-the-FFSv2-GUID", where, off)
+				return
+			}
+			if sectioned(fb[18]) {
+				secs(fb, hl, fmt.Sprintf("%s file@%x:", where, off))
+			}
+			off = up(off+size, 8)
+		}
+	}
+	for _, tv := range TopVolumes(b) {
+		vol(b[tv.Off:tv.Off+tv.Len], fmt.Sprintf("volume@%x:", tv.Off))
+	}
+	return why
+}
+
 // PadFileGUIDs lists the GUID of every pad file (type 0xF0) of the image, the way a tree walk meets
 // them: top-level volumes, volumes in FV-image sections, sections of opened compressed sections.
 // Pad files are not part of the generator's image spec (the layout inserts them), but they are
